@@ -47,6 +47,10 @@ type mitm struct {
 	script map[int]tamper
 	rng    *hx.Rng
 	log    []string
+	// a frame recorded on one connection, to be injected into the next connection between the same
+	// two nodes
+	recorded []byte
+	replayed bool
 }
 
 func newMitm(target string, script map[int]tamper, rng *hx.Rng) *mitm {
@@ -90,6 +94,17 @@ func (m *mitm) serve(c net.Conn) {
 		if first {
 			first = false
 			s.Write(append(h, body...))
+			m.mu.Lock()
+			rec := m.recorded
+			inject := rec != nil && !m.replayed
+			if inject {
+				m.replayed = true
+			}
+			m.mu.Unlock()
+			if inject {
+				time.Sleep(60 * time.Millisecond) // the handshake of this connection completes
+				s.Write(rec)
+			}
 			continue
 		}
 		m.mu.Lock()
@@ -131,6 +146,14 @@ func (m *mitm) serve(c net.Conn) {
 		case "replay":
 			s.Write(frame(body))
 			s.Write(frame(body))
+		case "cut-replay":
+			// forward, remember, cut the connection; the next connection gets the remembered frame
+			s.Write(frame(body))
+			m.mu.Lock()
+			m.recorded = frame(body)
+			m.mu.Unlock()
+			time.Sleep(40 * time.Millisecond)
+			return
 		case "chunk":
 			// the unmodified frame, arriving in several TCP segments
 			fb := frame(body)
@@ -407,7 +430,7 @@ func genC16(rng *hx.Rng, tier string, w *hx.Writer) error {
 	if tier == "thorough" {
 		nScen = 200
 	}
-	kinds := []string{"flip", "flip", "flip", "header-flip", "trunc", "trunc-raw", "dup-altered", "inject"}
+	kinds := []string{"flip", "flip", "flip", "header-flip", "trunc", "trunc-raw", "dup-altered", "inject", "cut-replay"}
 	for it := 0; it < nScen; it++ {
 		nmsg := 3 + rng.Intn(5)
 		kind := "none"
@@ -424,6 +447,10 @@ func genC16(rng *hx.Rng, tier string, w *hx.Writer) error {
 		if it%6 == 1 || it%6 == 4 {
 			kind = "chunk"
 			at = rng.Intn(nmsg)
+		}
+		if it%8 == 5 {
+			kind = "cut-replay"
+			at = rng.Intn(nmsg - 1)
 		}
 		ops := ""
 		if at >= 0 {
@@ -447,7 +474,7 @@ func genC16(rng *hx.Rng, tier string, w *hx.Writer) error {
 				frames = append(frames, honestFrame(t, i))
 			case kind == "inject":
 				frames = append(frames, hx.L(hx.Zi(0)), honestFrame(t, i))
-			case kind == "dup-altered":
+			case kind == "dup-altered" || kind == "cut-replay":
 				frames = append(frames, honestFrame(t, i), hx.L(hx.Zi(0)))
 			case kind == "replay":
 				frames = append(frames, honestFrame(t, i), honestFrame(t, i))
@@ -458,7 +485,7 @@ func genC16(rng *hx.Rng, tier string, w *hx.Writer) error {
 		for i := 0; i < nmsg; i++ {
 			t := i % ntypes
 			if i == at && kind != "none" && kind != "replay" && kind != "chunk" {
-				if kind == "dup-altered" {
+				if kind == "dup-altered" || kind == "cut-replay" {
 					expect = append(expect, deliver(t, i))
 				}
 				expect = append(expect, hx.E)
